@@ -156,6 +156,19 @@ impl<'a, 't> Gen<'a, 't> {
         let n = self.t.count(0, 8);
         let mut v = Vec::new();
         for _ in 0..n {
+            if self.t.ratio(1, 7) && self.g.want("STRING_DOLLAR_ESCAPES_IN_PROGRAMS") {
+                // a '$' escape, kept verbatim (the parser keeps the text between the quotes); not
+                // used by C01 itself, which would have to decide between raw and decoded
+                v.push('$');
+                match self.t.below(5) {
+                    0 => v.push('$'),
+                    1 => v.push(*self.t.pick(&['N', 'n', 'R', 'T', 'L', 'P'])),
+                    2 => v.extend(['4', '1']),
+                    3 => v.push('\''),
+                    _ => v.push('"'),
+                }
+                continue;
+            }
             let c = if self.t.ratio(1, 8) && self.g.want("STRING_NON_ASCII") {
                 *self.t.pick(&['é', 'ß', 'Ä', '€', '漢', 'ñ'])
             } else {
